@@ -64,6 +64,8 @@ def run(prog: Program, col: Collector, tier: str, refs: Optional[Refs] = None, c
     col.rule("R01.17", "the batch / event boundary of a tensor's array is computed from that tensor's own event rank", floor=2)
     from . import c06
     c06._boundary_of_own_tensor(prog, col, refs, cat)
+    col.rule("R01.18", "axis labels for a tensor's array are generated in the order of that tensor's own inputs", floor=2)
+    c06._axis_labels_in_layout_order(prog, col, refs, cat)
     # eager evaluation of Number operands runs the scalar implementation of an op, of Tensor operands the array one: they must agree
     from . import numerics
     numerics.run_agreement(prog, col, refs, cat, rule="R01.13")
